@@ -173,3 +173,9 @@ def r5(c):
          'a single ResponseTimeout does not end the session (from_request_err maps it to None)', str(sorted(arms)), loc_of(fr))
     opts = P.fn('rodbus::types::ClientOptions::max_response_timeouts')
     c.ob('option', opts is not None, 'the limit is a client option', '', loc_of(opts))
+
+
+@rule('C12', 'R12.6', 'a timed-out request leaves the connection usable: the half-received reply stays in the reader and is completed and skipped later - no reset on timeout (C05/R05.7)')
+def r6(c):
+    from rules import c05
+    c05.r7(c)
